@@ -68,7 +68,7 @@ func c18Specs() []distSpec {
 	// an initializer must keep what it was configured with, not a reference to the caller's struct
 	u0 := mustInit(initializers.NewUniform(nil))
 	out = append(out, distSpec{"Uniform", "nil config", false, -0.05, 0.05, u0.Init, true, 0})
-	for _, p := range [][2]float64{{-1, 4}, {0.25, 0.75}, {-7, -6.5}, {0, 1}, {-2, 0}, {0, 1e-3}, {-0.05, 0.5}, {-1e300, 1e300}, {0, 1e-300}} {
+	for _, p := range [][2]float64{{-1, 4}, {0.25, 0.75}, {-7, -6.5}, {0, 1}, {-2, 0}, {0, 1e-3}, {-0.05, 0.5}, {-1e300, 1e300}, {0, 1e-300}, {1000.00007, 1000.00017}, {-65536.5, -65536.25}} {
 		uc := &initializers.UniformConfig{Lower: p[0], Upper: p[1]}
 		u := mustInit(initializers.NewUniform(uc))
 		uc.Lower, uc.Upper = 100, 200
@@ -76,7 +76,7 @@ func c18Specs() []distSpec {
 	}
 	n0 := mustInit(initializers.NewNormal(nil))
 	out = append(out, distSpec{"Normal", "nil config", true, 0, 0.05, n0.Init, true, 0})
-	for _, p := range [][2]float64{{1, 2}, {-3, 0.5}, {0, 10}, {0, 0.05}, {2, 0.05}, {0, 1}, {0, 1e-170}, {0, 1e160}, {0, 1e-200}, {1e150, 1e150}} {
+	for _, p := range [][2]float64{{1, 2}, {-3, 0.5}, {0, 10}, {0, 0.05}, {2, 0.05}, {0, 1}, {0, 1e-170}, {0, 1e160}, {0, 1e-200}, {1e150, 1e150}, {2048.5, 1e-5}, {-300, 1e-6}} {
 		nc := &initializers.NormalConfig{Mean: p[0], StdDev: p[1]}
 		n := mustInit(initializers.NewNormal(nc))
 		nc.Mean, nc.StdDev = -50, 7
@@ -292,6 +292,13 @@ func runC18(c *fw.Ctx) {
 	c.Case(func(k *fw.K) { c18FirstDraws(k, int64(c.Shard)); c18Full(k) })
 	c.Case(func(k *fw.K) { c18FirstDraws(k, int64(c.Shard)); c18Reconstruct(k) })
 	c.Case(func(k *fw.K) { c18FirstDraws(k, int64(c.Shard)); c18CrossFamily(k, c.Pick(20000, 200000)) })
+	// long histories of small draws: no tensor ever comes back (a generator re-seeded per call from a small seed space repeats
+	// whole tensors tens of thousands of calls apart, where no consecutive-call or pooled-moment statistic looks)
+	specs := c18Specs()
+	for i := 0; i < 16; i++ {
+		d := specs[(i*7+3)%len(specs)]
+		c.Case(func(k *fw.K) { c18FirstDraws(k, int64(c.Shard)); c18LongHistory(k, d, c.Pick(120000, 500000)) })
+	}
 	// large tensors: freshness inside one tensor (no repeated blocks / rows), moments, support
 	for _, d := range c18Specs() {
 		if d.params == "nil config" || d.params == "[0,1)" || d.params == "mean 0 sigma 1" || d.params == "fanIn 3" || d.params == "fanIn 2 fanOut 3" {
@@ -391,6 +398,42 @@ func c18CrossFamily(k *fw.K, n int) {
 
 // c18Reconstruct: model code builds its initializers layer by layer - construct, Init, construct, Init ... within the same
 // instant. Constructing an initializer must not rewind the stream of draws: consecutive results are fresh.
+// c18LongHistory: n calls of one generator for a 4-element tensor; every returned tensor is remembered by its exact bits and none
+// may be returned twice (4 equal doubles by chance: below 2^-120 even with the 32-bit resolution of the normal ziggurat).
+func c18LongHistory(k *fw.K, d distSpec, n int) {
+	name := d.gen + " " + d.params
+	xrand.Seed(uint64(k.Rng.Int63()))
+	seen := make(map[[4]uint64]int, n)
+	repeats := 0
+	for i := 0; i < n; i++ {
+		t, err := d.init([]int{4})
+		if err != nil || t == nil {
+			k.Failf("%s.Init([4]) call %d: %v", name, i, err)
+			return
+		}
+		x, err := rt.Read(t)
+		if err != nil || len(x.Data) != 4 {
+			k.Failf("%s.Init([4]) call %d returned %v (%v)", name, i, x, err)
+			return
+		}
+		if x.Data[0] == x.Data[1] && x.Data[1] == x.Data[2] && x.Data[2] == x.Data[3] {
+			continue // a degenerate spread (sigma below the resolution around the mean): nothing to tell draws apart by
+		}
+		key := [4]uint64{math.Float64bits(x.Data[0]), math.Float64bits(x.Data[1]), math.Float64bits(x.Data[2]), math.Float64bits(x.Data[3])}
+		if j, ok := seen[key]; ok {
+			repeats++
+			if repeats == 1 {
+				k.Failf("%s: call %d returned exactly the tensor %v that call %d had returned: draws are not fresh on every call", name, i, x.Data, j)
+			}
+			continue
+		}
+		seen[key] = i
+	}
+	k.Count("long_history_draws", int64(n))
+	k.Count("long_history_distinct_tensors", int64(len(seen)))
+	k.Key("long-history/%s", name)
+}
+
 func c18Reconstruct(k *fw.K) {
 	xrand.Seed(uint64(k.Rng.Int63()))
 	k.Case = map[string]any{"scenario": "construct an initializer, Init, construct the same kind again, Init: the two results must differ"}
@@ -548,8 +591,16 @@ func c18Dist(k *fw.K, d distSpec, target int) {
 		}
 		var t tensor.Tensor
 		var err error
-		if p := call(func() { t, err = d.init(ref.CopyInts(shape)) }); p != nil || err != nil || t == nil {
+		arg := rt.SpareInts(shape) // a shape slice with spare capacity, as `like.Shape()[:n]` or an appended-to slice has
+		if len(shape) == 0 && calls%2 == 1 {
+			arg = nil // the other spelling of the scalar shape (the library's own tests write tensor.Zeros(nil, conf))
+		}
+		if p := call(func() { t, err = d.init(arg) }); p != nil || err != nil || t == nil {
 			k.Failf("%s.Init(%v): panic=%v err=%v", name, shape, p, err)
+			return
+		}
+		if !rt.SpareIntact(arg, shape) {
+			k.Failf("%s.Init(%v) wrote into the caller's shape slice (or beyond its length): %v", name, shape, arg[:cap(arg)])
 			return
 		}
 		calls++
